@@ -4,3 +4,7 @@ text, note, technique, design_ref).  tools/gen_manifest.py collects them."""
 PENDING_REASON = ("no check registered yet: the Coq model/theorems and the tie for this property are planned "
                   "in DESIGN.md section 4 but not built at this commit")
 NOT_APPLICABLE = {}
+
+# properties whose check is finished, reviewed and registered in MANIFEST.json; setup.sh builds exactly their
+# Coq files (props/<id>.vo + MODEL_TARGETS), gen_manifest.py lists exactly them as checks
+READY = ["C03", "C16"]
